@@ -124,6 +124,21 @@ def std_cases(g, rng, thorough):
     for tr in range(256):
         b = S.std_header(tr, "Sub", "I", tr % 32)
         g.add(0, b, hdr(tr=tr, fmt="Sub", type="I", q=tr % 32), "ptype-tr-quant")
+    # after a previous header: an INTRA picture may change the format (it has no reference picture to resample), a
+    # predicted picture that changes it is refused (resampling is not implemented), the same format is always fine
+    names = {1: "Sub", 2: "Q", 3: "F", 4: "4", 5: "16"}
+    for psf in range(1, 6):
+        pb_ = S.Bits(); pb_.extend(S.std_header(9, psf, "I", 4)); pb_.put(0, 7)
+        for sf in range(1, 6):
+            for ptype in ("I", "P"):
+                for pb in (0, 1):
+                    b = S.std_header(40 + sf, sf, ptype, 9, pb=pb, trb=3, dbquant=1)
+                    ty = "PB" if pb else ptype
+                    if sf != psf and ty != "I":
+                        exp = "err:Unimplemented"
+                    else:
+                        exp = hdr(tr=40 + sf, fmt=names[sf], type=ty, q=9, pbr="3" if pb else "-", pbq="6" if pb else "-")
+                    g.add(0, b, exp, "ptype-after-header", prev=pb_.to_bytes(), pfn=0)
     # marker bits of PTYPE: bits 1-2 must be '10'; source format 000 is forbidden
     for m in (0, 1, 3):
         b = S.Bits().put(1, 17).put(0, 5).put(9, 8).put(m, 2).put(0, 3).put(2, 3).put(0, 5).put(5, 5).put(0, 1).put(0, 1)
